@@ -19,6 +19,7 @@ mod replay_qdldl;
 mod replay_presolve;
 mod replay_update;
 mod replay_timers;
+mod rec_vec;
 
 use rand::rngs::StdRng;
 use rand::{Rng, SeedableRng};
@@ -181,6 +182,11 @@ fn main() {
             write_lines(&args.get("out", "kkt.ndjson"), &lines);
             write_lines(&args.get("cases", "kkt.cases.ndjson"), &cases);
             println!("{}", json!({"layouts": ns, "states": lines.len() - ns}));
+        }
+        "vecmath" => {
+            let lines = rec_vec::record(args.num("seed", 1), args.get("tier", "quick") == "thorough");
+            write_lines(&args.get("out", "vec.ndjson"), &lines);
+            println!("{}", json!({"events": lines.len()}));
         }
         "kktsolve" => {
             let (lines, cases) = rec_kkt::record_solves(args.num("seed", 1), args.num("count", 300) as usize);
